@@ -1,6 +1,6 @@
 PROP = {
     "level": "proof",
-    "legs": ["c18-stamps", "c18-spellings", "c18-harvest"],
+    "legs": ["c18-stamps", "c18-spellings", "c18-harvest", "c18-equiv"],
     "timeout_quick": 300,
     "trusted_base": TB_COMMON + [
         "token abstraction of the pattern text (Model/Options.v gtok) and the harness printer; the exported-tree walker that reads node Options back (RightToLeft bit masked; IgnoreCase compared on back-reference nodes only, because RegexNode.reduce clears it elsewhere)",
